@@ -74,14 +74,16 @@ DECL_KW = ("integer", "real", "double", "complex", "logical", "character", "type
 
 def free_undetectable(phys):
     """The input offers none of the three cues fortls's content heuristic uses to recognise free form
-    (known finding C14-free-form-undetectable): a line with 1-4 leading blanks before a letter, a
-    declaration keyword starting before column 6, a line ending in '&'."""
+    (known finding C14-free-form-undetectable): a line with 1-4 leading blanks before a letter, a letter other
+    than c / d in column 1, a declaration keyword starting before column 6, a line ending in '&'."""
     import re
     for l in phys:
         if l.startswith("#"):
             continue
         if re.match(r" {1,4}[A-Za-z]", l):
             return False
+        if re.match(r"[abe-zABE-Z_]", l):
+            return False   # a statement starting in column 1 with a letter that is no comment flag (cue added by the repair)
         lead = len(l) - len(l.lstrip(" "))
         if lead < 6 and re.match(r"(integer|real|double *precision|complex|double *complex|character|logical|procedure|external|class|type)",
                                  l.lstrip(" "), re.I):
